@@ -39,7 +39,7 @@ func findAccountState(states *[]types.State, account *types.Account) int {
 		if state.Burn || state.Account == nil || state.Account.Type != account.Type {
 			continue
 		}
-		if state.Account.Id == account.Id {
+		if state.Account.CanonicalId() == account.CanonicalId() {
 			return pos
 		}
 	}
